@@ -17,8 +17,12 @@ NA = {
 "C18":"table lookup against the installed toolchain; enumeration of paths, nothing to schedule or fault",
 "C19":"pure function of (Qual/Anon/preamble combination, prefix, hints)",
 }
-PENDING = {k:"simulation target per DESIGN.md; check not yet built (will be claimed once it runs)" for k in ["C03","C09","C10","C20"]}
+PENDING = {k:"simulation target per DESIGN.md; check not yet built (will be claimed once it runs)" for k in ["C09","C10","C20"]}
 CLAIMED = {
+"C03": dict(engine="filesim", cat="exploration", ref="DESIGN.md 5.1",
+  technique="deterministic simulation: seeded File-lifecycle histories (hint/Anon/prefix/add/render in any order) under simulator-chosen map order; each rendered File's import bindings resolved against fabricated packages (own resolver + go/types)",
+  text="Seeded exploration of histories over a collision-rich universe of import paths. Every successfully rendered File is read back: the import block's bindings (alias, or the package's true declared name when no alias is written) must bind the qualifier in front of each workload symbol to the path it was built with, uniquely and consistently; go/types with fabricated packages gives a second opinion on scoping.",
+  note="Declared names of fabricated packages are chosen by the workload, those of std packages are Go facts checked against GOROOT/src by selftest; dot-aliases are outside the statement (C06) and not generated; a render that returns an error is outside the statement and only counted (vacuity guard at 20%)."),
 "C08": dict(engine="filesim", cat="exploration", ref="DESIGN.md 5.3",
   technique="deterministic simulation: seeded operation histories on one File (renders, fragment renders, additions, late hints, failing writers) with simulator-chosen map order changing between renders; idempotence and name-stability oracle over the recorded history",
   text="Seeded exploration of histories over one File and its fragments. R1: two renders of one object with nothing state-changing in between are byte-identical and end the same way; R2: the qualifier a path first appeared under (read out of the outputs) is used by every later output and bound by every later import block; R3: a failed write changes neither.",
